@@ -43,7 +43,18 @@ func verifGoID() uint64 {
 	return id
 }
 
+// VerifTracePoint, when set (before any goroutine of the code under test runs), is
+// called at every trace point before the event is recorded. Events whose name
+// starts with "pt." are interleaving points only and are never recorded.
+var VerifTracePoint func(obj any, ev string)
+
 func verifTrace(obj any, ev string) {
+	if f := VerifTracePoint; f != nil {
+		f(obj, ev)
+	}
+	if len(ev) > 3 && ev[:3] == "pt." {
+		return
+	}
 	l := &verifTraceLog
 	l.mu.Lock()
 	defer l.mu.Unlock()
